@@ -18,6 +18,15 @@ CHECKS={
  'C06':('runtime monitoring: generated server with reflective authenticators in a child process; exhaustive credential assignments per operation; OR-of-ANDs security evaluator as oracle',
         'held on the executions observed: for every requirement shape (global / per operation / explicit empty, each scheme type and location, oauth2 scopes, AND, OR, OR of ANDs, schemes sharing a header) and EVERY assignment of absent/valid/invalid/insufficient-scope credentials the handler runs iff an alternative of the effective requirement is satisfied, else 401/403, and the principal comes from an authenticator of a satisfied alternative.',
         'authenticators follow the documented convention (error code 401 for bad credentials); which satisfied alternative wins and 401 vs 403 not asserted','C06'),
+ 'C01':('runtime monitoring: the real swagger binary generates model / server / client / cli code for batches of atoms, then go build compiles the output; exit statuses and compiler diagnostics are the monitor, attribution through swagger:model / swagger:route markers',
+        'held on the executions observed: every schema shape, parameter kind, (name, name position) pair of a ~130-string corpus and free-text breaker, under the flatten modes and a covering set of option switches, plus seeded 30-atom composites: a document accepted by validate.Spec must generate with exit 0 and compile. Atoms that fail today are listed per (atom, target, configuration).',
+        'validity by go-openapi/validate; expand mode not run on polymorphic/recursive atoms; x-go-type, custom templates, XML, remote refs outside the fragment','C01'),
+ 'C07':('runtime monitoring: repeated fresh-process executions with output hashing, plus a -race build of the harness calling the generator and diff libraries concurrently with injected yields (verif hooks); Go race detector + sequential-baseline comparison',
+        'held on the executions observed: every command run K times in fresh processes on map-populating inputs gives byte-identical outputs; every concurrent library generation equals the sequential generation of the same job at the same path; zero race reports; the evidence lists the yield sites hit and the number of distinct per-goroutine yield sequences produced.',
+        'same absolute paths across compared runs; race reports counted from the GORACE log; watchdog expiry inconclusive; a miss is possible for maps the inputs leave with <2 entries','C07'),
+ 'C09':('runtime monitoring: generate twice into the same path (neutral vs hostile free text), parse every generated file with go/parser, erase comments and literal values, compare ASTs',
+        'held on the executions observed: ~50 free-text positions x breakers (all positions at once, bisected) and injectors that stay valid Go when they escape a block comment, line comment, raw string or interpreted string; server, client, cli and models with description/example struct tags; minimal and full flatten. Identical erased ASTs required; a generation error is an accepted outcome.',
+        'string-literal concatenations are folded (that is how backticks are escaped); equal erased ASTs + a compiling neutral rendering imply a compiling hostile rendering','C09'),
  'C08':('runtime monitoring: generate server+client for colliding-name documents, then count artefacts and route a uniquely marked request to every (method, path) in the compiled server',
         'held on the executions observed: for each collision atom the outcome must be a generator error or a bijection operations <-> handler fields <-> client methods <-> bound markers and definitions <-> model types. Atoms where operations / definitions are silently dropped today are listed in known-findings.json.',
         'a generation that exits 0 but does not compile is left to C01','C08'),
